@@ -28,11 +28,13 @@ class C11(PropCheck):
         "header attributes are non-negative ints (or a str message_type); struct's native byte order is "
         "little-endian on the host",
         "every RF24.send() of the emission reports success (retries/aborts: C05/C07); first hop != this node",
-        "the NETWORK_ACK wait of _write() (routed ack-type messages) is not exercised: D12 is noted, not checked here",
     ]
     exhaustive = False
 
     def impl(self, line):
+        if line.startswith("net "):
+            from harness import netsession
+            return netsession.run_line(line)
         return SI.run_line(line)
 
     def cases(self, res, tier, rng):
@@ -121,6 +123,19 @@ class C11(PropCheck):
             tys = f"i{ty}" if rng.random() < 0.95 else rng.choice(["s84", "s"])
             body = rng.randbytes(n).hex() or "-"
             out.append((f"write {node} {ml} {fe} 9/{to}/{rng.choice(IDS)}/{tys}/{rng.choice([0, 9])}/{body}", "write-misc"))
+        # "after sending, the caller's header shows its original type again" on real nodes over simulated radios, incl. routed
+        # messages whose NETWORK_ACK is awaited (frames received during the wait must not reach the caller's frame)
+        from harness import gen_net
+        for _ in range(40 if tier == "quick" else 600):
+            tree = gen_net.rand_tree(rng, rng.randint(2, 5))
+            ops = [f"new n{i} network {i} {gen_net.addr_of(t)}" for i, t in enumerate(tree)]
+            for _ in range(rng.randint(1, 3)):
+                si = rng.randrange(len(tree))
+                di = rng.choice([i for i in range(len(tree)) if i != si])
+                ops.append(f"n{si} write {gen_net.addr_of(tree[di])} {rng.choice([1, 64, 65, 100, 127, 191, 192, 200])} "
+                           f"{rng.randbytes(rng.choice([0, 3, 24, 25, 60, 144])).hex() or '-'} 56")
+                ops.append(f"n{rng.randrange(len(tree))} update")
+            out.append((f"net {len(tree)} 1 " + " ; ".join(ops), "caller-frame-after-write"))
         return out
 
     def nontrivial(self, line, io):
@@ -136,6 +151,20 @@ class C11(PropCheck):
             plan.append(then)
 
         for l, io, mo in triples:
+            if l.startswith("net "):
+                # the caller's frame after write(): original type, destination, message; origin = the node's address
+                for k, (name, part) in enumerate(zip(l.split(" ; "), io.split(" ; "))):
+                    t = name.split()
+                    if len(t) > 1 and t[1] == "write" and "frame=" in part:
+                        fr = part.split("frame=")[1].split(" ")[0]
+                        hdr, body = fr.rsplit(":", 1)
+                        typ = hdr.split(":")[1].split("/")[0]
+                        to = hdr.split(">")[1].split("#")[0]
+                        if typ != str(int(t[3]) & 0xFF) or to != str(int(t[2]) & 0xFFF) or body != t[4][:288] and len(t[4]) <= 288:
+                            out.append(Finding(l, f"op {k} `{name[:60]}`: after write() the caller's frame reads {fr[:60]} "
+                                                  f"(written: to {t[2]} type {t[3]})", {"op_index": k}))
+                            break
+                continue
             op, *a = l.split()
             det = {"impl": io[:1500], "model": (mo or "")[:1500]}
             if op == "hpack" and in_range(*a):
